@@ -68,6 +68,12 @@ Theorem C10_median_balanced : forall fuel T fw ws tot p w,
 Proof. exact (median_balanced cfg_impl). Qed.
 Print Assumptions C10_median_balanced.
 
+(* band_of I64 = band_i64: the literal clause below 2^46, a relative 2^-40 more from 2^46 on *)
+Theorem C10_band_i64 : forall tot wl,
+  band_i64 tot wl <->
+  (if tot <? 2 ^ 46 then 100 * Z.abs (2 * wl - tot) <= tot + 200
+   else 2 ^ 40 * (100 * Z.abs (2 * wl - tot)) <= (2 ^ 40 + 1) * tot + 2 ^ 40 * 200).
+Proof. exact (fun tot wl => conj (fun H => H) (fun H => H)). Qed.
 Theorem C10_band_unit : forall tot wl, band_unit tot wl <-> 100 * Z.abs (2 * wl - tot) <= tot + 200.
 Proof. exact (fun tot wl => conj (fun H => H) (fun H => H)). Qed.
 Theorem C10_band_rel : forall tot wl,
@@ -89,16 +95,17 @@ Proof. exact (gridrcb_boxes cfg_impl C10_literals). Qed.
 Print Assumptions C10_gridrcb_boxes.
 
 (* the threshold facts, proved with Flocq from the IEEE-754 meaning of the
-   operations (classical-reals axioms): i64 weights, every total below 2^46;
+   operations (classical-reals axioms): i64 weights, every total below 2^63
+   (band facts: "1% + 1 unit" below 2^46, "1% * (1 + 2^-40) + 1 unit" from 2^46 on);
    f64 weights z * 2^-k (k <= 1000), every total z below 2^53 *)
-Theorem C10_thresholds_i64 : forall t, 0 <= t < 2 ^ 46 -> thr_ok_b I64 tol t = true.
+Theorem C10_thresholds_i64 : forall t, 0 <= t < 2 ^ 63 -> thr_ok_b I64 tol t = true.
 Proof. exact thr_ok_flocq_i64. Qed.
 Print Assumptions C10_thresholds_i64.
 Theorem C10_thresholds_f64 : forall k t, (k <= 1000)%nat -> 0 <= t < 2 ^ 53 -> thr_ok_b (F64 k) tol t = true.
 Proof. exact thr_ok_flocq_f64. Qed.
 Print Assumptions C10_thresholds_f64.
 
-(* total_ok I64 tot = tot < 2^46 ; total_ok (F64 k) tot = k <= 1000 /\ tot < 2^53.
+(* total_ok I64 tot = tot < 2^63 ; total_ok (F64 k) tot = k <= 1000 /\ tot < 2^53.
    Hence, unconditionally: termination for every pool size, *)
 Theorem C10_median_terminates_all : forall (T fuel : nat) fw ws tot,
   ws <> [] -> 0 <= tot -> total_ok fw tot -> (Nat.log2 (length ws) + 1 <= fuel)%nat ->
@@ -125,6 +132,21 @@ Theorem C10_gridrcb_boxes_all : forall fuel T fw ds ws k,
               /\ C10_spec (bal_prop fw) (start_of cfg_impl ds) ds ws k ids.
 Proof. exact (gridrcb_boxes_all cfg_impl C10_literals eq_refl). Qed.
 Print Assumptions C10_gridrcb_boxes_all.
+
+(* ---- the LITERAL clause "within 1% of half plus one unit" is false of the code for giant totals ----
+   1 x 3 grid, weights 1480445131096389888, 1, 1510353113542781918 (total ~2^61.4), iter_count 1,
+   any of the pools 1,2,3,4,8,16: the ids are [0,1,1]; the low side is 155 units below
+   0.495*total - 1 and no slab next to the cut holds the half-weight mark; no tree makes the
+   output satisfy the statement with bal_unit, while it satisfies it with bal_i64
+   (cfg_fixed = the literals of the current source; the real code gives the same ids:
+   harness family i64_band_edge, outcome class 6) *)
+Theorem C10_strict_band_refuted :
+  (forall T, In T [1; 2; 3; 4; 8; 16]%nat ->
+     grid_rcb cfg_fixed 41 T I64 [1; 3]%nat giant_ws 1 3 = Ok [0; 1; 1]%N)
+  /\ ~ C10_spec bal_unit 1 [1; 3]%nat giant_ws 1 [0; 1; 1]%N
+  /\ C10_spec bal_i64 1 [1; 3]%nat giant_ws 1 [0; 1; 1]%N.
+Proof. exact (conj giant_run giant_spec_refuted). Qed.
+Print Assumptions C10_strict_band_refuted.
 
 (* ---- the parts are axis-aligned boxes ----
    for a tree as in C10_spec and any id q, the cells of the box that part_of
